@@ -99,6 +99,7 @@ class BuildResult:
         self.failed_modules = []
         self.axioms = {}          # theorem -> list of axioms (or None if missing)
         self.forbidden = []       # grep hits
+        self.rechecked = None     # thorough tier: result of the independent re-check of the compiled proofs (leanchecker)
         self.wall = 0.0
 
 
@@ -193,6 +194,17 @@ def build(theorems, gen=True):
                     res.axioms[th] = None
             if rc2 != 0:
                 res.log += out2
+            if os.environ.get('VERIF_TIER_EFFECTIVE') == 'thorough':
+                # independent re-check of the compiled proof modules by the toolchain's leanchecker
+                mods = sorted({'Dlismodel.' + os.path.relpath(os.path.join(r, f), os.path.join(LEAN, 'Dlismodel'))[:-5].replace(os.sep, '.')
+                               for sub in ('Proofs', 'Props', 'Generated')
+                               for r, _, fs in os.walk(os.path.join(LEAN, 'Dlismodel', sub)) for f in fs if f.endswith('.lean')})
+                rc3, out3 = sh(['lake', 'env', 'leanchecker'] + mods, cwd=LEAN, timeout=3000)
+                res.rechecked = (rc3 == 0)
+                if rc3 != 0:
+                    res.lib_ok = False
+                    res.failed_modules = ['leanchecker'] + res.failed_modules
+                    res.log += out3
     finally:
         lock.close()
     res.wall = time.time() - t0
@@ -372,6 +384,7 @@ def finish(chk, bres, theorems, partial_note=None, extra_assumptions=None):
             'oracle_failures': len(chk.failures),
             'known_findings_seen': sorted(seen_known),
             'build_wall_s': round(bres.wall, 2),
+            'leanchecker_recheck': bres.rechecked,
             'explanation': partial_note or '',
             'notes': chk.notes,
         },
